@@ -1317,6 +1317,171 @@ theorem no_simulation_past_terminal_as_extracted {m : Mdl} (hm : m.pomcp = true 
   | false => left; rfl
   | true => right; rw [hm hp]; exact hx hp
 
+/-! ### rPOMCP (max-of-belief): horizon and counts -/
+
+namespace R
+
+theorem rup_fields (m : Mdl) (k : Nat) (t : RTree) (p : Path) (a depth : Nat) (imm : Rat) :
+    (rup m k t p a depth imm).1.nN = t.nN ∧ (rup m k t p a depth imm).1.nA = t.nA ∧
+    (rup m k t p a depth imm).1.stops = t.stops ∧
+    (rup m k t p a depth imm).1.aN = upd t.aN p (updN (t.aN p) a (t.aN p a + 1)) := by
+  unfold rup
+  dsimp only
+  split <;> exact ⟨rfl, rfl, rfl, rfl⟩
+
+theorem rdown_fields (t : RTree) (p : Path) (st : Step) :
+    (rdown t p st).1.nN = upd t.nN p (t.nN p + 1) ∧ (rdown t p st).1.nA = t.nA ∧ (rdown t p st).1.stops = t.stops ∧
+    (rdown t p st).1.aN = t.aN := by
+  unfold rdown RTree.updBK
+  simp only
+  split <;> exact ⟨rfl, rfl, rfl, rfl⟩
+
+theorem ralloc_spec {t t1 : RTree} {p : Path} {n : Nat} (h : t.alloc p n = some t1) :
+    t1.nN = t.nN ∧ t1.aN = t.aN ∧ t1.stops = t.stops ∧ (∀ q, t1.nA q = t.nA q ∨ t.nA q = 0) := by
+  unfold RTree.alloc at h
+  split at h
+  · simp at h; subst h; exact ⟨rfl, rfl, rfl, fun q => Or.inl rfl⟩
+  · split at h
+    · rename_i hn0
+      simp at h; subst h
+      refine ⟨rfl, rfl, rfl, fun q => ?_⟩
+      by_cases hq : q = p
+      · subst hq; right; exact hn0
+      · left; simp [upd, hq]
+    · simp at h
+
+/-- count invariant of rPOMCP's belief nodes: visits = visits passed on to an action + visits that ended here as a
+    leaf (`stops`) + open frames; the literal `N = Σ_a N(a)` holds exactly where `stops = 0` (a fresh root) -/
+structure RCnt (pend : Path → Nat) (t : RTree) : Prop where
+  cnt : ∀ q, t.nN q = sumTo (t.aN q) (t.nA q) + t.stops q + pend q
+  out : ∀ q a, t.nA q ≤ a → t.aN q a = 0
+
+theorem RCnt.of_nA {pend : Path → Nat} {t t1 : RTree} (h : RCnt pend t) (e1 : t1.nN = t.nN) (e2 : t1.aN = t.aN)
+    (e3 : t1.stops = t.stops) (hA : ∀ q, t1.nA q = t.nA q ∨ t.nA q = 0) : RCnt pend t1 := by
+  refine ⟨fun q => ?_, fun q a hqa => ?_⟩
+  · rw [e1, e2, e3]
+    rcases hA q with hq | hq0
+    · rw [hq]; exact h.cnt q
+    · have hz : ∀ a, t.aN q a = 0 := fun a => h.out q a (by omega)
+      rw [sumTo_zero _ hz]
+      have := h.cnt q
+      rw [hq0] at this
+      simpa [sumTo] using this
+  · rw [e2]
+    rcases hA q with hq | hq0
+    · exact h.out q a (by omega)
+    · exact h.out q a (by omega)
+
+/-- **rPOMCP: every `simulate` call at depth `depth` makes at most `H - depth` consecutive calls of the generative
+    model (no rollouts: the horizon is respected exactly), keeps the count invariant, and never re-sizes a node** -/
+theorem rsim_spec (m : Mdl) (H k : Nat) : ∀ (fuel : Nat) (t : RTree) (p : Path) (s depth : Nat) (log : List Step)
+    (t' : RTree) (r : Rat) (rest : List Step), depth < H →
+    rsim m H k fuel t p s depth log = some (t', r, rest) →
+    (∃ used, log = used ++ rest ∧ used.length ≤ H - depth ∧ IsChain s used) ∧
+    (∀ pend, RCnt pend t → RCnt pend t') ∧ (∀ q, t'.nA q = t.nA q ∨ t.nA q = 0) := by
+  intro fuel
+  induction fuel with
+  | zero => intro t p s depth log t' r rest _ h; simp [rsim] at h
+  | succ fuel ih =>
+    intro t p s depth log t' r rest hlt h
+    cases log with
+    | nil => simp [rsim] at h
+    | cons st log =>
+      simp only [rsim] at h
+      split at h
+      · rename_i hc
+        simp only [Bool.and_eq_true, decide_eq_true_eq] at hc
+        obtain ⟨⟨⟨hs, ha⟩, _⟩, _⟩ := hc
+        obtain ⟨d1, d2, d3, d4⟩ := rdown_fields t p st
+        -- the invariant after `rdown`
+        have hdown : ∀ pend, RCnt pend t → RCnt (upd pend p (pend p + 1)) (rdown t p st).1 := by
+          intro pend hI
+          refine ⟨fun q => ?_, fun q a hqa => ?_⟩
+          · rw [d1, d2, d3, d4]
+            by_cases hq : q = p
+            · subst hq; simp only [upd, if_true]; have := hI.cnt q; omega
+            · simp only [upd, hq, if_false]; exact hI.cnt q
+          · rw [d4]; rw [d2] at hqa; exact hI.out q a hqa
+        have hup : ∀ (t3 : RTree) (imm : Rat) pend, RCnt (upd pend p (pend p + 1)) t3 → st.a < t3.nA p →
+            RCnt pend (rup m k t3 p st.a depth imm).1 := by
+          intro t3 imm pend hI ha3
+          obtain ⟨u1, u2, u3, u4⟩ := rup_fields m k t3 p st.a depth imm
+          refine ⟨fun q => ?_, fun q b hqb => ?_⟩
+          · rw [u1, u2, u3, u4]
+            by_cases hq : q = p
+            · subst hq
+              simp only [upd, if_true]
+              have := sumTo_updN_lt (t3.aN q) st.a (t3.aN q st.a + 1) (t3.nA q) ha3
+              have hc := hI.cnt q
+              simp only [upd, if_true] at hc
+              omega
+            · simp only [upd, hq, if_false]
+              have hc := hI.cnt q
+              simp only [upd, hq, if_false] at hc
+              exact hc
+          · rw [u4]; rw [u2] at hqb
+            by_cases hq : q = p
+            · subst hq
+              have hb : b ≠ st.a := by omega
+              simp only [upd, if_true, updN, hb, if_false]
+              exact hI.out q b hqb
+            · simp only [upd, hq, if_false]; exact hI.out q b hqb
+        split at h
+        · simp at h
+        · rename_i t3 imm log' hr
+          simp at h
+          obtain ⟨rfl, rfl, rfl⟩ := h
+          split at hr
+          · rename_i hdeep
+            simp only [Bool.and_eq_true, decide_eq_true_eq] at hdeep
+            split at hr
+            · simp at hr
+            · rename_i t2 hal
+              obtain ⟨a1, a2, a3, a4⟩ := ralloc_spec hal
+              obtain ⟨⟨used, hu, hlen, hch⟩, hcnt, hnA⟩ := ih _ _ _ _ _ _ _ _ hdeep.1.1 hr
+              have hnA_all : ∀ q, t3.nA q = t.nA q ∨ t.nA q = 0 := by
+                intro q
+                rcases a4 q with h2 | h2
+                · rw [d2] at h2
+                  rcases hnA q with h3 | h3
+                  · left; rw [h3, h2]
+                  · right; rw [← h2]; exact h3
+                · rw [d2] at h2; right; exact h2
+              refine ⟨⟨st :: used, by rw [hu]; rfl, by simp; omega, ⟨hs, hch⟩⟩, fun pend hI => ?_, fun q => ?_⟩
+              · have h1 := (hdown pend hI).of_nA a1 a2 a3 a4
+                have h2 := hcnt _ h1
+                have ha3 : st.a < t3.nA p := by
+                  rcases hnA_all p with h | h
+                  · rw [h]; exact ha
+                  · omega
+                exact hup t3 imm pend h2 ha3
+              · rw [(rup_fields m k t3 p st.a depth imm).2.1]; exact hnA_all q
+          · simp at hr
+            obtain ⟨rfl, _, rfl⟩ := hr
+            refine ⟨⟨[st], rfl, by simp; omega, ⟨hs, trivial⟩⟩, fun pend hI => ?_, fun q => ?_⟩
+            · have h1 := hdown pend hI
+              have h2 : RCnt (upd pend p (pend p + 1)) (rleaf (rdown t p st).1 (p ++ [(st.a, st.o)])) := by
+                refine ⟨fun q => ?_, fun q a hqa => h1.out q a hqa⟩
+                have hc := h1.cnt q
+                show upd (rdown t p st).1.nN (p ++ [(st.a, st.o)]) ((rdown t p st).1.nN (p ++ [(st.a, st.o)]) + 1) q
+                  = sumTo ((rdown t p st).1.aN q) ((rdown t p st).1.nA q)
+                    + upd (rdown t p st).1.stops (p ++ [(st.a, st.o)]) ((rdown t p st).1.stops (p ++ [(st.a, st.o)]) + 1) q
+                    + upd pend p (pend p + 1) q
+                by_cases hq : q = p ++ [(st.a, st.o)]
+                · subst hq
+                  simp only [upd, if_true]
+                  simp only [upd] at hc
+                  omega
+                · simp only [upd, hq, if_false]
+                  simp only [upd] at hc
+                  exact hc
+              exact hup _ _ pend h2 (by show st.a < (rdown t p st).1.nA p; rw [d2]; exact ha)
+            · rw [(rup_fields m k _ p st.a depth _).2.1]
+              left; show (rdown t p st).1.nA q = t.nA q; rw [d2]
+      · simp at h
+
+end R
+
 /-! ### Witnesses: the hypotheses are satisfiable, and the source's rollout length breaks the horizon -/
 
 /-- a two-action model, every reward 1, discount 1/2, never terminal, rollout length as in the source (`+ 1`) -/
